@@ -283,8 +283,8 @@ func checkRandUnion(w *World, r *Result) {
 	// rand.Intn(%d) fed with len(ty.Members)
 	intnOK := false
 	ast.Inspect(fi.Decl.Body, func(x ast.Node) bool {
-		call, isC := x.(*ast.CallExpr)
-		if !isC || !isSprintf(info, &call) {
+		call := sprintfView(info, x)
+		if call == nil {
 			return true
 		}
 		format, vas := verbArgs(info, call)
@@ -370,8 +370,8 @@ func checkRandStruct(w *World, r *Result) {
 	// assignment s.<Field.Name()> = rand<functionID(f.Type)>()
 	okAssign := false
 	ast.Inspect(fl.rs.Body, func(x ast.Node) bool {
-		call, ok := x.(*ast.CallExpr)
-		if !ok || !isSprintf(info, &call) {
+		call := sprintfView(info, x)
+		if call == nil {
 			return true
 		}
 		format, vas := verbArgs(info, call)
